@@ -187,6 +187,39 @@ def check_error_paths(run, case):
                 os.remove(os.path.join(s, f))
         repo.drop_rules(name)
 
+def check_markov_heavy(run, case):
+    """Honeyword modes on a ruleset whose Markov structure takes nearly all the probability: almost every walk lands on M and yields no word, and the
+    session has to keep drawing until exactly N words are out.  The number of empty walks is a multiple of N (about N x P(M)/(1-P(M)))."""
+    import random
+    rng = random.Random(case['hseed'])
+    name, path = gstream.materialise(case['spec'], 'c09m')
+    sn = session.new_session_name('c09m')
+    try:
+        for mode in ('random_walk', 'honeywords'):
+            r = session.run_main(['-r', name, '-s', sn, '-m', mode, '-n', str(case['n'])], max_guesses=case['n'] + 1000)
+            run.ev('limit_runs'); run.ev('markov_heavy_honeyword_runs')
+            if r.exc is not None:
+                run.violation(f'{mode} --limit {case["n"]} on a ruleset with P(M) = {case["pm"]} raised {r.exc!r}', case, observed=r.stderr[-300:]); return
+            if len(r.guesses) != case['n'] or r.stdout != '' or r.stdout_missing:
+                run.violation(f'{mode} --limit {case["n"]} on a ruleset with P(M) = {case["pm"]} (about {int(case["n"] * case["pm"] / (1 - case["pm"]))} empty walks): '
+                              f'wrote {len(r.guesses)} words', case, observed=r.stderr[-300:]); return
+        run.case(h(['markov-heavy', case['pm'], case['n']]))
+        run.sample({'markov_heavy': True, 'P(M)': case['pm'], 'n': case['n'], 'expected_empty_walks': int(case['n'] * case['pm'] / (1 - case['pm']))})
+    finally:
+        session.drop_session(sn)
+        repo.drop_rules(name)
+
+def markov_heavy_case(rng, tier):
+    pm, n = (0.999, 60) if tier == 'quick' else (0.9995, 1200)
+    spec = rulesets.gen_spec(rng, with_m=True, labels=['D1', 'A2'], n_base=2, max_len=2, min_groups=1, max_groups=2, max_per_group=3, pool='counts')
+    rest = [b for b in spec['base'] if b[0] != 'M'] or [['D1', 1.0]]
+    tot = sum(p for _, p in rest)
+    spec['base'] = [['M', pm]] + [[s_, (1 - pm) * p / tot] for s_, p in rest]
+    for lab in ('D1', 'A2', 'C2'):
+        if lab not in spec['terms']:
+            spec['terms'][lab] = rulesets.gen_terminal(rng, lab, 'counts', 2, 3)
+    return {'spec': spec, 'pm': pm, 'n': n, 'hseed': rng.getrandbits(32), 'markov_heavy': True}
+
 def run(run, rng):
     run.required_events = ['limit_runs', 'cli_runs', 'rulesets_with_every_N', 'random_walk_limit_runs', 'error_path_runs', 'status_request_runs', 'limit_on_resumed_session_runs']
     run.min_distinct = 20
@@ -196,6 +229,8 @@ def run(run, rng):
                        'honeywords mode is random: only the count is checked here (distribution: C16)', 'CLI exit status ignored']
     for i in range(N[run.tier]):
         run.guard(gen_case(rng), check_case, run.tier, seconds=600)
+    if run.shard[0] == 1 % run.shard[1]:
+        run.guard(markov_heavy_case(rng, run.tier), check_markov_heavy, seconds=900)
     if run.shard[0] == 0:
         case = gen_case(rng)
         case['error_paths'] = True
@@ -203,7 +238,9 @@ def run(run, rng):
 
 def replay(run, case):
     c = case['case']
-    if c.get('error_paths'):
+    if c.get('markov_heavy'):
+        check_markov_heavy(run, c)
+    elif c.get('error_paths'):
         check_error_paths(run, c)
     else:
         check_case(run, c, 'thorough')
